@@ -47,11 +47,11 @@ def install():
     BatteryDistributionAlgorithm._distribute_multi_inverter_pairs = wrapper
 
 
-def make(shape, exponent, sign, boundary=None, reach=False, wide_battery=False, soc_pattern=None):
+def make(shape, exponent, sign, boundary=None, reach=False, wide_battery=False, soc_pattern=None, oneway=None):
     shape = tuple(tuple(s) for s in shape)
 
     def fn(ex):
-        pairs, groups = dist.build(ex, shape, wide_battery=wide_battery, soc_pattern=soc_pattern)
+        pairs, groups = dist.build(ex, shape, wide_battery=wide_battery, soc_pattern=soc_pattern, oneway=oneway)
         P, dirs = dist.request(ex, groups, sign)
         mag = E(P) * sign
         if boundary == "excl":
@@ -108,6 +108,9 @@ def instances(tier):
         I("3x(1x1)+soc", "make", (((1, 1),) * 3, 1.0, 1, None, False, False, (79.0, 50.0, 70.0)), "3 groups; SoC data concrete (headroom 21/50/30 %, capacity 1), so every share is "
           "linear in the symbolic request and bounds (QF_LRA); all power bounds and the request symbolic (budgeted)", budget_s=90, exhaustive=False,
           incremental=True, validate_every=200, timeout_ms=30000, decision_limit=120),
+        I("3x(1x1)+soc-oneway", "make", (((1, 1),) * 3, 1.0, 1, None, False, False, (20.0, 85.0, 85.0), {2: 1}), "3 groups with concrete SoC data (headroom 80/15/15 %), the third a "
+          "charge-only group without exclusion zone (inclusion lower bounds and exclusion bounds concrete 0); the other bounds and the request symbolic (budgeted)",
+          budget_s=90, exhaustive=False, incremental=True, validate_every=200, timeout_ms=30000, decision_limit=120),
         I("2x(1x1)+", "make", (g2, 1.0, 1), "2 groups of 1 battery + 1 inverter, consume", budget_s=600, **kw),
         I("2x(1x1)+@excl", "make", (g2, 1.0, 1, "excl"), "request exactly the advertised exclusion bound", budget_s=300, **kw),
         I("2x(1x1)+@incl", "make", (g2, 1.0, 1, "incl"), "request exactly the advertised inclusion bound", budget_s=300, **kw),
